@@ -5,6 +5,7 @@ import (
 	"errors"
 	"fmt"
 	"github.com/syndtr/goleveldb/leveldb"
+	"sync"
 
 	"github.com/lidofinance/dc4bc/client/api/dto"
 	"github.com/lidofinance/dc4bc/client/modules/state"
@@ -27,6 +28,9 @@ type FSMService interface {
 }
 
 type FSM struct {
+	// saveMu serializes updates of the FSM instances storage,
+	// SaveFSM is called by the poller and by API handlers at the same time
+	saveMu   sync.Mutex
 	state    state.State
 	storage  storage.Storage
 	stateKey string
@@ -79,6 +83,9 @@ func (fsm *FSM) loadFSM(dkgRoundID string) (*state_machines.FSMInstance, bool, e
 }
 
 func (fsm *FSM) SaveFSM(dkgRoundID string, dump []byte) error {
+	fsm.saveMu.Lock()
+	defer fsm.saveMu.Unlock()
+
 	fsmInstances, err := fsm.getAllFSMData()
 	if err != nil {
 		return fmt.Errorf("failed to get fsm instances: %w", err)
